@@ -6,6 +6,7 @@
  "mode": "harness",
  "replace_calls": {"directive": "rec_directive"},
  "unwind": 8,
+ "tiers": {"thorough": {"cflags": ["-DNS=9"], "unwind": 10, "timeout": 1800, "bound": "as quick over a source of up to 9 tokens"}},
  "kind": "proof-const-unwind",
  "bound": "three consecutive calls, each into `tok` (rawnext) or into another token (peekparen's look-ahead), over a source of at most 7 tokens drawn from {identifier, new-line, #}",
  "timeout": 300, "replay": false,
@@ -24,7 +25,9 @@
 #include "verif.h"
 
 struct token tok;
+#ifndef NS
 #define NS 7
+#endif
 static enum tokenkind s_kind[NS + 1]; static unsigned s_pos;
 static int g_ndir, g_dir_at[4];
 void scan(struct token *t) { t->kind = s_pos < NS ? s_kind[s_pos] : TEOF; t->lit = 0; t->loc.col = s_pos; s_pos++; }
@@ -53,6 +56,9 @@ harness(void)
 	bool first[NS + 1];     /* first[i]: token i is the first token on its line */
 
 	k[0] = in_k0; k[1] = in_k1; k[2] = in_k2; k[3] = in_k3; k[4] = in_k4; k[5] = in_k5; k[6] = in_k6;
+#if NS > 7
+	{ IN(int, in_k7); IN(int, in_k8); k[7] = in_k7; k[8] = in_k8; }
+#endif
 	d[0] = in_d0; d[1] = in_d1; d[2] = in_d2;
 	for (i = 0; i < NS; i++) {
 		__CPROVER_assume(k[i] == TIDENT || k[i] == TNEWLINE || k[i] == THASH);
